@@ -21,6 +21,7 @@ P = {'id': 'C07',
               'five_level_free_reuse',
               'five_level_reissue_fits',
               'five_level_used_exact',
+              'five_level_frag_covers',
               'five_link_write_safe',
               'five_offset_wrap_refuted',
               'five_small_align_refuted',
@@ -68,7 +69,7 @@ P = {'id': 'C07',
                  'they issued); the SecureMemoryPool double free is performed by the harness through the hook only while the chunk is not handed out again',
                  'agreement of model and code is established on the generated histories only (offsets / arena-relative offsets / chunk identities by '
                  'address, results of every allocate and free, pool statistics and inspector dumps after every operation)'],
- 'level_text': 'Machine-checked Coq theorems (39, all closed under the global context) about hand-written models of the pools. LockFreeMemoryPool and '
+ 'level_text': 'Machine-checked Coq theorems (40, all closed under the global context) about hand-written models of the pools. LockFreeMemoryPool and '
                'BumpAllocator/BumpArena: for every arena size / base address and every history, live allocations are pairwise disjoint, at least as large as '
                'requested, aligned, inside the arena; requests beyond the capacity and foreign pointers are refused leaving the pool unchanged; the free-list '
                'link written on free touches no other live block. FixedCapacityMemoryPool: distinct whole blocks inside the arena for every configuration and '
